@@ -288,11 +288,11 @@ def make_harness(op, n, m=0, use_validator=True, mask=None, factory=None, twins=
         ret_t = ret_r = None
         try:
             ret_t = apply(op, tl, key, new, k, False)
-        except (IndexError, ValueError, TypeError, TraitError) as e:
+        except (IndexError, ValueError, TypeError, TraitError, AttributeError, LookupError, RuntimeError, NameError, ArithmeticError) as e:
             exc_t = type(e).__name__
         try:
             ret_r = apply(op, ref, key, new, k, True)
-        except (IndexError, ValueError, TypeError, TraitError) as e:
+        except (IndexError, ValueError, TypeError, TraitError, AttributeError, LookupError, RuntimeError, NameError, ArithmeticError) as e:
             exc_r = type(e).__name__
         after = ids(tl)
         before = ids(before)
